@@ -145,21 +145,22 @@ Proof.
 Qed.
 
 (* the journal loop without rule state *)
-Fixpoint process_pure (ord : bool) (pl : pool) (rules : list rule) (ds : list directive)
+Fixpoint process_pure (ord : bool) (pl : pool) (al : aliases) (rules : list rule) (ds : list directive)
   : list (res xoutcome) :=
   match ds with
   | [] => []
-  | DRule r :: ds' => process_pure ord (learn_rule pl r) (rules ++ [r]) ds'
+  | DRule r :: ds' => process_pure ord (learn_rule pl r) al (rules ++ [r]) ds'
+  | DAlias n t :: ds' => process_pure ord pl (alias_set n t al) rules ds'
   | DTxn t :: ds' =>
       let pl' := learn_posts pl (t_posts t) in
       let cp := cp_of pl' in
       match finalize ord cp None (t_posts t) with
       | Ok (Accepted ps) =>
-          (do xs <- extend_all_pure ord cp rules (t_payee t) (t_state t)
+          (do xs <- extend_all_pure ord cp (map (realias_rule al) rules) (t_payee t) (t_state t)
                                     (lift (t_state t) (map (annotate_cost cp) ps));
-           Ok (XAccepted xs)) :: process_pure ord pl' rules ds'
-      | Ok Ignored => Ok XIgnored :: process_pure ord pl' rules ds'
-      | Err e => Err e :: process_pure ord pl' rules ds'
+           Ok (XAccepted xs)) :: process_pure ord pl' al rules ds'
+      | Ok Ignored => Ok XIgnored :: process_pure ord pl' al rules ds'
+      | Err e => Err e :: process_pure ord pl' al rules ds'
       end
   end.
 
@@ -168,23 +169,55 @@ Proof.
   intros H. apply Forall_app. split; [exact H|]. constructor; [apply memo_ok_init | constructor].
 Qed.
 
-(* the memo and the quick matcher never change a result *)
-Theorem process_eq_pure ord : forall ds pl rules,
-  rules_ok rules -> process ord pl rules ds = process_pure ord pl (map fst rules) ds.
+(* the memo speaks about the predicate only; re-aliasing the lines' accounts keeps it valid *)
+Lemma memo_ok_same_pred r r' rs : r_pred r = r_pred r' -> memo_ok r rs -> memo_ok r' rs.
+Proof. intros Hp H a b Hf payee p0 Ha. rewrite <- Hp. apply (H a b Hf payee p0 Ha). Qed.
+
+Lemma rules_ok_realias al rules :
+  rules_ok rules -> rules_ok (map (fun rr => (realias_rule al (fst rr), snd rr)) rules).
 Proof.
-  induction ds as [|d ds IH]; intros pl rules Hok; cbn [process process_pure]; [reflexivity|].
-  destruct d as [r|t].
-  - rewrite (IH _ _ (rules_ok_app rules r Hok)). rewrite map_app. reflexivity.
+  intros H. induction H as [|[r rs] l Hr _ IH]; cbn [map]; constructor; [|exact IH].
+  cbn [fst snd] in *. apply (memo_ok_same_pred r); [reflexivity | exact Hr].
+Qed.
+
+Lemma restate_ok al : forall (rules rules' : list (rule * rstate)),
+  map fst rules' = map (realias_rule al) (map fst rules) -> rules_ok rules' ->
+  rules_ok (combine (map fst rules) (map snd rules')) /\
+  map fst (combine (map fst rules) (map snd rules')) = map fst rules.
+Proof.
+  induction rules as [|[r rs] rules IH]; intros [|[r' rs'] rules'] Hm Hok; cbn [map combine fst snd] in *;
+    try discriminate.
+  - split; [constructor | reflexivity].
+  - injection Hm as Hr Hm. inversion Hok as [|x l H1 H2]; subst. cbn [fst snd] in H1.
+    destruct (IH rules' Hm H2) as [I1 I2]. split.
+    + constructor; [|exact I1]. cbn [fst snd]. apply (memo_ok_same_pred (realias_rule al r)); [reflexivity | exact H1].
+    + rewrite I2. reflexivity.
+Qed.
+
+(* the memo and the quick matcher never change a result *)
+Theorem process_eq_pure ord : forall ds pl al rules,
+  rules_ok rules -> process ord pl al rules ds = process_pure ord pl al (map fst rules) ds.
+Proof.
+  induction ds as [|d ds IH]; intros pl al rules Hok; cbn [process process_pure]; [reflexivity|].
+  destruct d as [r|t|n t].
+  - rewrite (IH _ _ _ (rules_ok_app rules r Hok)). rewrite map_app. reflexivity.
   - cbv zeta. destruct (finalize ord (cp_of (learn_posts pl (t_posts t))) None (t_posts t)) as [[ps|]|e].
-    + destruct (extend_all_eq_pure ord (cp_of (learn_posts pl (t_posts t))) (t_payee t) (t_state t) rules
-                  (lift (t_state t) (map (annotate_cost (cp_of (learn_posts pl (t_posts t)))) ps)) Hok)
+    + pose proof (rules_ok_realias al rules Hok) as Hok'.
+      destruct (extend_all_eq_pure ord (cp_of (learn_posts pl (t_posts t))) (t_payee t) (t_state t)
+                  (map (fun rr => (realias_rule al (fst rr), snd rr)) rules)
+                  (lift (t_state t) (map (annotate_cost (cp_of (learn_posts pl (t_posts t)))) ps)) Hok')
         as [H1 [H2 H3]].
-      destruct (extend_all ord (cp_of (learn_posts pl (t_posts t))) rules (t_payee t) (t_state t)
+      destruct (extend_all ord (cp_of (learn_posts pl (t_posts t)))
+                  (map (fun rr => (realias_rule al (fst rr), snd rr)) rules) (t_payee t) (t_state t)
                   (lift (t_state t) (map (annotate_cost (cp_of (learn_posts pl (t_posts t)))) ps)))
         as [out rules']. cbn [fst snd] in *.
-      rewrite H1, (IH _ _ H2), H3. reflexivity.
-    + rewrite (IH _ _ Hok). reflexivity.
-    + rewrite (IH _ _ Hok). reflexivity.
+      rewrite map_map in H1, H3. cbn [fst] in H1, H3.
+      assert (Hm : map fst rules' = map (realias_rule al) (map fst rules)) by (rewrite H3, map_map; reflexivity).
+      destruct (restate_ok al rules rules' Hm H2) as [R1 R2].
+      rewrite H1, (IH _ _ _ R1), R2, map_map. reflexivity.
+    + rewrite (IH _ _ _ Hok). reflexivity.
+    + rewrite (IH _ _ _ Hok). reflexivity.
+  - apply IH. exact Hok.
 Qed.
 
 (* ------------------------------------------------------------ what an extension consists of *)
@@ -359,40 +392,47 @@ Qed.
 (* ------------------------------------------------------------ only later transactions *)
 
 Definition rules_in (ds : list directive) : list rule :=
-  flat_map (fun d => match d with DRule r => [r] | DTxn _ => [] end) ds.
+  flat_map (fun d => match d with DRule r => [r] | _ => [] end) ds.
 
 Definition pool_after (pl : pool) (ds : list directive) : pool :=
   fold_left (fun acc d => match d with
                           | DRule r => learn_rule acc r
                           | DTxn t => learn_posts acc (t_posts t)
+                          | DAlias _ _ => acc
                           end) ds pl.
+
+Definition aliases_after (al : aliases) (ds : list directive) : aliases :=
+  fold_left (fun acc d => match d with DAlias n t => alias_set n t acc | _ => acc end) ds al.
 
 (* the results for ds1 do not depend on what follows; what follows sees exactly the rules
    before it, in file order *)
-Theorem process_pure_app ord : forall ds1 pl rules ds2,
-  process_pure ord pl rules (ds1 ++ ds2) =
-  process_pure ord pl rules ds1 ++ process_pure ord (pool_after pl ds1) (rules ++ rules_in ds1) ds2.
+Theorem process_pure_app ord : forall ds1 pl al rules ds2,
+  process_pure ord pl al rules (ds1 ++ ds2) =
+  process_pure ord pl al rules ds1 ++
+  process_pure ord (pool_after pl ds1) (aliases_after al ds1) (rules ++ rules_in ds1) ds2.
 Proof.
-  induction ds1 as [|d ds1 IH]; intros pl rules ds2; cbn [app process_pure pool_after rules_in flat_map fold_left].
+  induction ds1 as [|d ds1 IH]; intros pl al rules ds2;
+    cbn [app process_pure pool_after aliases_after rules_in flat_map fold_left].
   - rewrite app_nil_r. reflexivity.
-  - destruct d as [r|t].
+  - destruct d as [r|t|n t].
     + rewrite IH. cbn [app]. rewrite <- app_assoc. reflexivity.
     + cbv zeta. cbn [app].
       destruct (finalize ord (cp_of (learn_posts pl (t_posts t))) None (t_posts t)) as [[ps|]|e];
         rewrite IH; reflexivity.
+    + rewrite IH. reflexivity.
 Qed.
 
-Theorem only_later ord pl rules ds1 r ds2 :
-  firstn (length (process_pure ord pl rules ds1)) (process_pure ord pl rules (ds1 ++ DRule r :: ds2)) =
-  process_pure ord pl rules ds1.
+Theorem only_later ord pl al rules ds1 r ds2 :
+  firstn (length (process_pure ord pl al rules ds1)) (process_pure ord pl al rules (ds1 ++ DRule r :: ds2)) =
+  process_pure ord pl al rules ds1.
 Proof.
   rewrite process_pure_app. rewrite firstn_app, Nat.sub_diag, firstn_all. cbn [firstn]. apply app_nil_r.
 Qed.
 
-Theorem only_later_stateful ord pl ds1 r ds2 :
-  firstn (length (process ord pl [] ds1)) (process ord pl [] (ds1 ++ DRule r :: ds2)) = process ord pl [] ds1.
+Theorem only_later_stateful ord pl al ds1 r ds2 :
+  firstn (length (process ord pl al [] ds1)) (process ord pl al [] (ds1 ++ DRule r :: ds2)) = process ord pl al [] ds1.
 Proof.
-  rewrite !(process_eq_pure ord _ pl [] (Forall_nil _)). apply only_later.
+  rewrite !(process_eq_pure ord _ pl al [] (Forall_nil _)). apply only_later.
 Qed.
 
 (* ------------------------------------------------------------ amounts of the new postings *)
@@ -525,22 +565,24 @@ Proof. intros Hg Hv. unfold extend_pure, finish. rewrite Hg. cbn [bind]. rewrite
 
 (* ------------------------------------------------------------ the whole journal *)
 
-Definition txn_result (ord : bool) (pl : pool) (rules : list rule) (t : txn) : res xoutcome :=
+Definition txn_result (ord : bool) (pl : pool) (al : aliases) (rules : list rule) (t : txn) : res xoutcome :=
   let pl' := learn_posts pl (t_posts t) in
   let cp := cp_of pl' in
   match finalize ord cp None (t_posts t) with
   | Ok (Accepted ps) =>
-      do xs <- extend_all_pure ord cp rules (t_payee t) (t_state t) (lift (t_state t) (map (annotate_cost cp) ps));
+      do xs <- extend_all_pure ord cp (map (realias_rule al) rules) (t_payee t) (t_state t)
+                               (lift (t_state t) (map (annotate_cost cp) ps));
       Ok (XAccepted xs)
   | Ok Ignored => Ok XIgnored
   | Err e => Err e
   end.
 
 (* the result of a transaction depends on the directives before it only, and the rules applied
-   to it are exactly the rules written before it, in file order *)
-Theorem txn_sees_rules_before ord pl rules ds1 t ds2 :
-  nth_error (process_pure ord pl rules (ds1 ++ DTxn t :: ds2)) (length (process_pure ord pl rules ds1)) =
-  Some (txn_result ord (pool_after pl ds1) (rules ++ rules_in ds1) t).
+   to it are exactly the rules written before it, in file order (their lines' accounts run
+   through the aliases in force at the transaction) *)
+Theorem txn_sees_rules_before ord pl al rules ds1 t ds2 :
+  nth_error (process_pure ord pl al rules (ds1 ++ DTxn t :: ds2)) (length (process_pure ord pl al rules ds1)) =
+  Some (txn_result ord (pool_after pl ds1) (aliases_after al ds1) (rules ++ rules_in ds1) t).
 Proof.
   rewrite process_pure_app. rewrite nth_error_app2, Nat.sub_diag by apply Nat.le_refl.
   cbn [process_pure]. unfold txn_result. cbv zeta.
@@ -548,33 +590,38 @@ Proof.
     reflexivity.
 Qed.
 
+Lemma flat_map_map {A B C} (f : B -> list C) (g : A -> B) l : flat_map f (map g l) = flat_map (fun x => f (g x)) l.
+Proof. induction l as [|x l IH]; cbn [map flat_map]; [reflexivity|]. rewrite IH. reflexivity. Qed.
+
 (* C16 for a whole journal: an accepted transaction consists of its finalized postings,
    untouched, followed, for every rule written before it (file order) and every non-generated
    finalized posting matching that rule (posting order), by one posting per rule line *)
-Theorem journal_extension_spec ord pl ds1 t ds2 xs :
+Theorem journal_extension_spec ord pl al ds1 t ds2 xs :
   let cp := cp_of (learn_posts (pool_after pl ds1) (t_posts t)) in
-  nth_error (process ord pl [] (ds1 ++ DTxn t :: ds2)) (length (process ord pl [] ds1)) = Some (Ok (XAccepted xs)) ->
+  let al' := aliases_after al ds1 in
+  nth_error (process ord pl al [] (ds1 ++ DTxn t :: ds2)) (length (process ord pl al [] ds1)) = Some (Ok (XAccepted xs)) ->
   exists ps, finalize ord cp None (t_posts t) = Ok (Accepted ps) /\
     let base := lift (t_state t) (map (annotate_cost cp) ps) in
-    xs = base ++ flat_map (fun r => contribution cp (t_state t) r (t_payee t) base) (rules_in ds1).
+    xs = base ++ flat_map (fun r => contribution cp (t_state t) (realias_rule al' r) (t_payee t) base) (rules_in ds1).
 Proof.
-  intros cp. rewrite !(process_eq_pure ord _ pl [] (Forall_nil _)). cbn [map].
-  rewrite txn_sees_rules_before. unfold txn_result. cbv zeta. fold cp. cbn [app].
+  intros cp al'. rewrite !(process_eq_pure ord _ pl al [] (Forall_nil _)). cbn [map].
+  rewrite txn_sees_rules_before. unfold txn_result. cbv zeta. fold cp. fold al'. cbn [app].
   destruct (finalize ord cp None (t_posts t)) as [[ps|]|e]; try discriminate.
-  destruct (extend_all_pure ord cp (rules_in ds1) (t_payee t) (t_state t) (lift (t_state t) (map (annotate_cost cp) ps)))
+  destruct (extend_all_pure ord cp (map (realias_rule al') (rules_in ds1)) (t_payee t) (t_state t)
+                            (lift (t_state t) (map (annotate_cost cp) ps)))
     as [ys|] eqn:E; cbn [bind]; [|discriminate].
   intros [= <-]. exists ps. split; [reflexivity|]. cbv zeta.
-  apply (extend_all_pure_spec _ _ _ _ _ _ _ E).
+  rewrite (extend_all_pure_spec _ _ _ _ _ _ _ E), flat_map_map. reflexivity.
 Qed.
 
 (* a transaction with no rule before it is exactly its finalized self *)
-Corollary no_rule_before_untouched ord pl ds1 t ds2 xs :
+Corollary no_rule_before_untouched ord pl al ds1 t ds2 xs :
   let cp := cp_of (learn_posts (pool_after pl ds1) (t_posts t)) in
   rules_in ds1 = [] ->
-  nth_error (process ord pl [] (ds1 ++ DTxn t :: ds2)) (length (process ord pl [] ds1)) = Some (Ok (XAccepted xs)) ->
+  nth_error (process ord pl al [] (ds1 ++ DTxn t :: ds2)) (length (process ord pl al [] ds1)) = Some (Ok (XAccepted xs)) ->
   exists ps, finalize ord cp None (t_posts t) = Ok (Accepted ps) /\ xs = lift (t_state t) (map (annotate_cost cp) ps).
 Proof.
-  intros cp Hr H. destruct (journal_extension_spec ord pl ds1 t ds2 xs H) as [ps [Hf Hx]].
+  intros cp Hr H. destruct (journal_extension_spec ord pl al ds1 t ds2 xs H) as [ps [Hf Hx]].
   exists ps. split; [exact Hf|]. cbv zeta in Hx. rewrite Hr in Hx. cbn [flat_map] in Hx.
   rewrite app_nil_r in Hx. exact Hx.
 Qed.
@@ -758,16 +805,18 @@ Qed.
    receives one posting per rule line.  (Before /repo e69e5ce the postings finalize makes for the
    2nd and later commodities of an elided amount were skipped: `= /C/ (B) 1` before
    `F $10.00 / F 5.00 EUR / C` gave (B) $-10.00 only.) *)
-Theorem journal_extension_every_posting ord pl ds1 t ds2 xs :
+Theorem journal_extension_every_posting ord pl al ds1 t ds2 xs :
   let cp := cp_of (learn_posts (pool_after pl ds1) (t_posts t)) in
+  let al' := aliases_after al ds1 in
   (forall p, In p (t_posts t) -> p_generated p = false) ->
-  nth_error (process ord pl [] (ds1 ++ DTxn t :: ds2)) (length (process ord pl [] ds1)) = Some (Ok (XAccepted xs)) ->
+  nth_error (process ord pl al [] (ds1 ++ DTxn t :: ds2)) (length (process ord pl al [] ds1)) = Some (Ok (XAccepted xs)) ->
   exists ps, finalize ord cp None (t_posts t) = Ok (Accepted ps) /\
     let base := lift (t_state t) (map (annotate_cost cp) ps) in
-    xs = base ++ flat_map (fun r => flat_map (fun x => map (inst_post cp (t_state t) (x_post x)) (r_lines r))
+    xs = base ++ flat_map (fun r => flat_map (fun x => map (inst_post cp (t_state t) (x_post x))
+                                                            (map (realias_line al') (r_lines r)))
                                              (filter (matchesb r (t_payee t)) base)) (rules_in ds1).
 Proof.
-  intros cp Hw H. destruct (journal_extension_spec ord pl ds1 t ds2 xs H) as [ps [Hf Hx]].
+  intros cp al' Hw H. destruct (journal_extension_spec ord pl al ds1 t ds2 xs H) as [ps [Hf Hx]].
   exists ps. split; [exact Hf|]. cbv zeta in *. rewrite Hx. f_equal.
   pose proof (finalize_user_made _ _ _ _ _ Hw Hf) as Hu. rewrite Forall_forall in Hu.
   apply flat_map_ext. intros r. unfold contribution, candidates.
@@ -775,6 +824,42 @@ Proof.
   intros x Hx'. unfold lift in Hx'. apply in_map_iff in Hx' as [p [<- Hp]].
   apply in_map_iff in Hp as [q [<- Hq]]. unfold not_generated. cbn [x_post].
   rewrite annotate_cost_flags, (Hu q Hq). reflexivity.
+Qed.
+
+(* ------------------------------------------------------------ the account of a generated posting *)
+
+Lemma alias_find_nil n : alias_find n [] = None.
+Proof. reflexivity. Qed.
+
+(* when neither the full name nor its first component is an alias the account is the rule line's *)
+Theorem realias_no_hit al full :
+  alias_find full al = None ->
+  (forall first rest, split_colon full = Some (first, rest) -> alias_find first al = None) ->
+  realias al full = full.
+Proof.
+  intros H1 H2. unfold realias. rewrite H1. destruct (split_colon full) as [[first rest]|]; [|reflexivity].
+  rewrite (H2 first rest eq_refl). reflexivity.
+Qed.
+
+Lemma realias_nil full : realias [] full = full.
+Proof. apply realias_no_hit; intros; reflexivity. Qed.
+
+Lemma realias_rule_nil r : realias_rule [] r = r.
+Proof.
+  destruct r as [p ls]. unfold realias_rule. cbn [r_pred r_lines]. f_equal.
+  induction ls as [|[a k m st] ls IH]; cbn [map]; [reflexivity|].
+  unfold realias_line at 1. cbn [rl_acct rl_kind rl_amt rl_state]. rewrite realias_nil, IH. reflexivity.
+Qed.
+
+(* every generated posting sits in the account its rule line names, run once more through the
+   aliases in force at the transaction *)
+Theorem generated_account cp st r payee ps al x :
+  In x (contribution cp st (realias_rule al r) payee ps) ->
+  exists l, In l (r_lines r) /\ p_acct (x_post x) = realias al (rl_acct l) /\ p_kind (x_post x) = rl_kind l.
+Proof.
+  unfold contribution. intros H. apply in_flat_map in H as [y [_ Hy]].
+  apply in_map_iff in Hy as [l' [<- Hl']]. cbn [r_lines realias_rule] in Hl'.
+  apply in_map_iff in Hl' as [l [<- Hl]]. exists l. split; [exact Hl|]. split; reflexivity.
 Qed.
 
 (* ------------------------------------------------------------ the re-check after the extension *)
